@@ -7,8 +7,17 @@
 (*   vpics / dpics   : per completed picture  hdr (<<name, value>> pairs), qm (quantisation  *)
 (*                     matrix entries), y, c1, c2 (coefficients, subbands in level / orient  *)
 (*                     order, row-major)                                                     *)
+(*   dpics additionally: cqm (the custom_quant_matrix flag the deserialiser read for the     *)
+(*                     picture); with cqm = FALSE the deserialised content holds NO matrix:  *)
+(*                     (12.4.5.3) then prescribes the Annex D default for (wavelet_index,    *)
+(*                     wavelet_index_ho, dwt_depth, dwt_depth_ho), taken here from           *)
+(*                     DVT_DefaultQM (generated from the third-party vc2_data_tables, not    *)
+(*                     from the tree under test); d.qm is the matrix the harness dequantised *)
+(*                     the deserialised values with.                                         *)
 (* Verdicts are total: the first differing clause and its index are reported.                *)
-EXTENDS Integers, Sequences, FiniteSets, TLC, Json, IOUtils, TLCExt
+EXTENDS Integers, Sequences, FiniteSets, TLC, Json, IOUtils, TLCExt, DeserValidatorTables
+
+ASSUME DVT_Generated
 
 Log == ndJsonDeserialize(IOEnv.TRACE_FILE)
 VARIABLES l, bad
@@ -39,9 +48,23 @@ DCBandOK(vflat, dc) == dc.r = <<>> \/ dc.w = 0 \/ DCAcc(dc.r, dc.w, <<>>) = SubS
 DCPredictionOK(v, d) ==
   Len(d.dcres) = 0 \/ (DCBandOK(v.y, d.dcres[1]) /\ DCBandOK(v.c1, d.dcres[2]) /\ DCBandOK(v.c2, d.dcres[3]))
 
+(* value of the named entry of a recorded header (sequence of <<name, value>>); -1 if absent *)
+HdrVal(hdr, name) ==
+  IF \E i \in 1..Len(hdr) : hdr[i][1] = name
+  THEN hdr[CHOOSE i \in 1..Len(hdr) : hdr[i][1] = name][2] ELSE -1
+QMKey(hdr) == <<HdrVal(hdr, "wavelet_index"), HdrVal(hdr, "wavelet_index_ho"),
+                HdrVal(hdr, "dwt_depth"), HdrVal(hdr, "dwt_depth_ho")>>
+(* (12.4.5.3) the matrix in force for a picture of the DESERIALISED stream: the one it carries, *)
+(* else the Annex D default for its own (deserialised) transform parameters; <<>> if none exists *)
+MatrixInForce(d) ==
+  IF d.cqm THEN d.qm
+  ELSE IF QMKey(d.hdr) \in DOMAIN DVT_DefaultQM THEN DVT_DefaultQM[QMKey(d.hdr)] ELSE <<>>
+
 PicClause(v, d) ==
   IF v.hdr # d.hdr THEN <<"HeaderValues", FirstDiff(v.hdr, d.hdr)>>
-  ELSE IF v.qm # d.qm THEN <<"QuantMatrix", FirstDiff(v.qm, d.qm)>>
+  ELSE IF v.qm # MatrixInForce(d) THEN <<"QuantMatrix", FirstDiff(v.qm, MatrixInForce(d))>>
+  \* the harness must have dequantised the deserialised values with that very matrix
+  ELSE IF d.qm # MatrixInForce(d) THEN <<"HarnessMatrix", FirstDiff(d.qm, MatrixInForce(d))>>
   ELSE IF v.y # d.y THEN <<"Coefficients", FirstDiff(v.y, d.y)>>
   ELSE IF v.c1 # d.c1 THEN <<"Coefficients", FirstDiff(v.c1, d.c1)>>
   ELSE IF v.c2 # d.c2 THEN <<"Coefficients", FirstDiff(v.c2, d.c2)>>
